@@ -392,6 +392,7 @@ func (u *universe) baselineAttempts(r *ev.Run) {
 		}
 		a.F0 = fp(res.obj)
 	})
+	r.Eval(len(u.attempts))
 	na := map[string]bool{}
 	for _, a := range u.attempts {
 		if a.F0 == "" {
@@ -769,11 +770,13 @@ func Check(r *ev.Run, replay string) {
 		s, t = u.runSequence(r, []cfgSpec{{}, c, {}}, false)
 		addST(s, t)
 		seqs += 2
+		r.Eval(2)
 		if len(c.Deny)+len(c.Override) == 1 {
 			target := append(append([]string{}, c.Deny...), c.Override...)[0]
 			if ids := u.byTarget[target]; len(ids) > 0 {
 				u.runSequenceScript(r, c, u.attempts[ids[0]], false)
 				seqs++
+				r.Eval(1)
 			}
 		}
 		if r.NumViolations() > before+3 {
@@ -904,6 +907,7 @@ func (u *universe) validateBaseline(r *ev.Run) {
 			break
 		}
 	}
+	r.Eval(len(ps))
 	r.Set("baseline_paths_validated", len(ps))
 }
 
@@ -923,7 +927,7 @@ func (u *universe) finish(r *ev.Run, states, trans int64, ncfg, pairs int) {
 			appl++
 		}
 	}
-	var ambiguous []string
+	ambiguous := []string{}
 	for f, ns := range u.fpNames {
 		if len(ns) > 1 {
 			ambiguous = append(ambiguous, strings.Join(ns, " = ")+"  ("+f+")")
